@@ -17,7 +17,7 @@ PROP = "C06"
 
 def alphabets(tier: str) -> Any:
     if tier == "quick":
-        full = A.size_atoms((1, 2, 16, 17)) + A.index_atoms((0, 1, 15, 16))
+        full = A.size_atoms((0, 1, 2, 16, 17)) + A.index_atoms((0, 1, 15, 16))
         small = [
             ["global GroupSize", "int 2", "=="],
             ["txn GroupIndex", "int 1", "<"],
@@ -25,7 +25,7 @@ def alphabets(tier: str) -> Any:
             ["txn GroupIndex", "int 0", "!="],
         ]
     else:
-        full = A.size_atoms() + A.index_atoms()
+        full = A.size_atoms((0, 1, 2, 3, 16, 17)) + A.index_atoms()
         small = [
             ["global GroupSize", "int 2", "=="],
             ["txn GroupIndex", "int 1", "<"],
@@ -42,10 +42,14 @@ def items(tier: str) -> List[Any]:
     out: List[Any] = [("direct", s) for s in spaces.layered(full, small, tier)]
     # soundness-only: atoms routed through stack shuffles
     sh = []
-    for a in small[:2]:
+    for a in small[:2] + [["global GroupSize", "int 2", "!="], ["txn GroupIndex", "int 1", ">="]]:
         sh += A.shuffled(a)
     seen = set(s for _, s in out)
-    for s in spaces.layered(sh, sh[:2], tier, l2_size=2, l3=False, max_subs=1):
+    for s in spaces.layered(sh, sh[:2], tier, l2_size=2, l3=False, max_subs=1, chains=False):
+        if s not in seen:
+            seen.add(s)
+            out.append(("shuffle", s))
+    for s in spaces.unresolvable_constants([x for m, x in out if m == "direct"], 3000 if tier == "quick" else 20000):
         if s not in seen:
             seen.add(s)
             out.append(("shuffle", s))
